@@ -2,7 +2,7 @@
 """Second opinion on the solver verdicts ("diff two solvers once per encoding change").
 
 Runs the quick tier of the given checks with VERIF_DUMP_SMT set, so that vf.symx writes a sample of
-the queries it decided (every 40th per worker process, at most 150 per process) as SMT-LIB2 together
+the queries it decided (every 40th per worker process, every floating-point query; at most 150 per process) as SMT-LIB2 together
 with the verdict of the z3 wheel, then re-solves every dumped query with
 
   * cvc5 (the 1.4.0 wheel installed into .venv by setup.sh), and
@@ -25,7 +25,7 @@ import tempfile
 import time
 
 HERE = os.path.dirname(os.path.dirname(os.path.abspath(__file__)))
-TLIMIT_MS = 20000
+TLIMIT_MS = 60000
 
 
 RESERVED = ('exp', 'sin', 'cos', 'tan', 'sqrt', 'pow', 'pow2', 'pi', 'arcsin', 'arccos', 'arctan', 'csc', 'sec', 'cot', 'iand', 'int.pow2')
